@@ -298,7 +298,6 @@ func runC16(c *Ctx) {
 	apiErrorDiscipline(c, "C16-R2", func(file string) bool { return file == "promql_series.go" })
 }
 
-
 // cacheExpiryWriters: cacheEntry.expiresAt is written only by queryCache.set
 // (a lookup must not extend the lifetime of an answer).
 func cacheExpiryWriters(c *Ctx, rule string) {
